@@ -128,6 +128,7 @@ func (e *enp) Serve(c gen.Connection, redial gen.NetworkDial) error {
 
 		if err := conn.Join(nc, conn.id, redial, tail); err != nil {
 			conn.log.Error("unable to join %s: %s", nc.RemoteAddr().String(), err)
+			nc.Close()
 		}
 	}
 
